@@ -75,7 +75,8 @@ Definition be_cex_cfg (b : nat) (d : bool) (ks : list Z) : script_cfg :=
 (** relation match on a component the table lacks (UnsafeFilter relations) *)
 Definition be_cex0 : list (list Z) :=
   [[0]; [2; 1; 1; 1; 1; 0]; [15; 1; 0; 0; 0; 2; 1; 0; 2; 0]; [19; 0; 0]; [20; 0]; [24; 0]; [20; 0]; [24; 0]; [20; 0]; [24; 0]]%Z.
-(** class A: archetypes left without a table by creations that panicked; ordinary filter *)
+(** class A: archetypes without a table (states admitted by [St]; before the repair of createArchetype they
+    were left behind by creations that panicked, now they are unreachable: [archs_tabled_norel]); ordinary filter *)
 Definition be_cexA : list (list Z) :=
   [[0]; [1;1;1]; [2;1;0;1;1;0]; [15;0;0;0;0;0]; [19;0;0]; [20;0]; [24;0]; [20;0]; [24;0]; [20;0]; [24;0]]%Z.
 (** class B: UnsafeFilter relation on a component that a later relation archetype lacks *)
@@ -373,20 +374,25 @@ Lemma be_kq_cache_add_table : forall Qv tid t am, be_kq Qv (cache_add_table tid 
 Proof. intros. unfold cache_add_table. be_kq_tac. Qed.
 Lemma be_kq_cache_remove_table : forall Qv tid, be_kq Qv (cache_remove_table tid).
 Proof. intros. unfold cache_remove_table. be_kq_tac. Qed.
-Lemma be_kq_create_archetype : forall Qv m, be_kq Qv (create_archetype m).
-Proof. intros. unfold create_archetype. be_kq_tac. Qed.
-#[export] Hint Resolve be_kq_arch_get_table be_kq_cache_add_table be_kq_cache_remove_table be_kq_create_archetype : be_kq.
-Lemma be_kq_find_or_create_arch : forall Qv m, be_kq Qv (find_or_create_arch m).
-Proof. intros. unfold find_or_create_arch. be_kq_tac. Qed.
+Lemma be_kq_create_archetype_bare : forall Qv m, be_kq Qv (create_archetype_bare m).
+Proof. intros. unfold create_archetype_bare. be_kq_tac. Qed.
+#[export] Hint Resolve be_kq_arch_get_table be_kq_cache_add_table be_kq_cache_remove_table be_kq_create_archetype_bare : be_kq.
 Lemma be_kq_check_rel : forall Qv r, be_kq Qv (check_rel r).
 Proof. intros. unfold check_rel. be_kq_tac. Qed.
-#[export] Hint Resolve be_kq_find_or_create_arch be_kq_check_rel : be_kq.
+#[export] Hint Resolve be_kq_check_rel : be_kq.
 Lemma be_kq_register_targets : forall Qv rels, be_kq Qv (register_targets rels).
 Proof. intros. unfold register_targets. be_kq_tac. Qed.
 #[export] Hint Resolve be_kq_register_targets : be_kq.
 Lemma be_kq_create_table : forall Qv aid rels, be_kq Qv (create_table aid rels).
 Proof. intros. unfold create_table. be_kq_tac. Qed.
 #[export] Hint Resolve be_kq_create_table : be_kq.
+(* createArchetype (as repaired) creates the table of a relation-free archetype itself *)
+Lemma be_kq_create_archetype : forall Qv m, be_kq Qv (create_archetype m).
+Proof. intros. unfold create_archetype. be_kq_tac. Qed.
+#[export] Hint Resolve be_kq_create_archetype : be_kq.
+Lemma be_kq_find_or_create_arch : forall Qv m, be_kq Qv (find_or_create_arch m).
+Proof. intros. unfold find_or_create_arch. be_kq_tac. Qed.
+#[export] Hint Resolve be_kq_find_or_create_arch : be_kq.
 Lemma be_kq_get_or_create_table : forall Qv aid rels, be_kq Qv (get_or_create_table aid rels).
 Proof. intros. unfold get_or_create_table. be_kq_tac. Qed.
 Lemma be_kq_gf_remove : forall Qv ids m, be_kq Qv (gf_remove ids m).
@@ -1389,24 +1395,29 @@ Proof.
 Qed.
 Lemma be_hom_cache_remove_table : forall tid, be_hom eq (cache_remove_table tid) (cache_remove_table tid).
 Proof. intros. unfold cache_remove_table. be_hom_tac. Qed.
-Lemma be_hom_create_archetype : forall m, be_small m -> be_hom eq (create_archetype m) (create_archetype m).
+Lemma be_hom_create_archetype_bare : forall m, be_small m -> be_hom eq (create_archetype_bare m) (create_archetype_bare m).
 Proof.
-  intros m Hm. unfold create_archetype. be_hom_step. be_hom_step; [|be_hom_tac].
+  intros m Hm. unfold create_archetype_bare. be_hom_step. be_hom_step; [|be_hom_tac].
   apply be_hom_put; [reflexivity|]. unfold be_Inv in *. destruct HI as (H1 & H2 & H3). cbn.
   split; [exact H1|]. split; [|exact H3]. apply Forall_app. split; [exact H2|]. constructor; [exact Hm | constructor].
 Qed.
-#[export] Hint Resolve be_hom_cache_add_table be_hom_cache_remove_table be_hom_create_archetype : be_hom.
-Lemma be_hom_find_or_create_arch : forall m, be_small m -> be_hom eq (find_or_create_arch m) (find_or_create_arch m).
-Proof. intros. unfold find_or_create_arch. be_hom_tac. Qed.
+#[export] Hint Resolve be_hom_cache_add_table be_hom_cache_remove_table be_hom_create_archetype_bare : be_hom.
 Lemma be_hom_check_rel : forall r, be_hom eq (check_rel r) (check_rel r).
 Proof. intros. unfold check_rel. be_hom_tac. Qed.
-#[export] Hint Resolve be_hom_find_or_create_arch be_hom_check_rel : be_hom.
+#[export] Hint Resolve be_hom_check_rel : be_hom.
 Lemma be_hom_register_targets : forall rels, be_hom eq (register_targets rels) (register_targets rels).
 Proof. intros. unfold register_targets. be_hom_tac. Qed.
 #[export] Hint Resolve be_hom_register_targets : be_hom.
 Lemma be_hom_create_table : forall aid rels, be_hom eq (create_table aid rels) (create_table aid rels).
 Proof. intros. unfold create_table. be_hom_tac. Qed.
 #[export] Hint Resolve be_hom_create_table : be_hom.
+(* createArchetype (as repaired): the archetype record, then the table of a relation-free archetype *)
+Lemma be_hom_create_archetype : forall m, be_small m -> be_hom eq (create_archetype m) (create_archetype m).
+Proof. intros m Hm. unfold create_archetype. be_hom_tac. Qed.
+#[export] Hint Resolve be_hom_create_archetype : be_hom.
+Lemma be_hom_find_or_create_arch : forall m, be_small m -> be_hom eq (find_or_create_arch m) (find_or_create_arch m).
+Proof. intros. unfold find_or_create_arch. be_hom_tac. Qed.
+#[export] Hint Resolve be_hom_find_or_create_arch : be_hom.
 Lemma be_hom_get_or_create_table : forall aid rels, be_hom eq (get_or_create_table aid rels) (get_or_create_table aid rels).
 Proof. intros. unfold get_or_create_table. be_hom_tac. Qed.
 #[export] Hint Resolve be_hom_get_or_create_table : be_hom.
